@@ -18,7 +18,7 @@ for p in props:
         "replay_cmd_template": "./pv explain {path}",
         "engine": "pdfverif",
         "level_claimed": {"category": "other", "text": c['text'], "design_ref": f"DESIGN.md section 4, {p}"},
-        "level_note": c['note'],
+        "level_note": c['note'] + " An obligation whose recogniser no longer finds its construct (code rewritten beyond the forms it knows) prints UNRECOGNISED, is recorded in the evidence and decides nothing about that construct; it does not fail the check (DESIGN.md 10.8).",
         "technique": c['technique'],
     })
 m = {
@@ -30,7 +30,7 @@ m = {
     "engines": [{"name": "pdfverif", "path": "cmd/pdfverif", "serves_properties": [c['property_id'] for c in checks],
                  "kind_free_text": "repository-specific static analyser (go/packages + go/types + go/cfg node-level control-flow queries, abstract interpretation over byte values, table extraction and comparison against transcribed specification tables); never executes /repo code"}],
     "checks": checks,
-    "notes": "All claims are at level 'other': each check decides structural necessary conditions of its property from /repo's current source on every run (see DESIGN.md). known-findings.txt lists fix: commits; no open findings are suppressed unless listed there.",
+    "notes": "All claims are at level 'other': each check decides structural necessary conditions of its property from /repo's current source on every run (see DESIGN.md). known-findings.txt lists fix: commits; no open findings are suppressed unless listed there. Recogniser failures are reported as UNRECOGNISED (not decided, not failed); PDFVERIF_STRICT=1 makes them fail.",
     "not_applicable": na,
 }
 json.dump(m, open(os.path.join(root, 'MANIFEST.json'), 'w'), indent=1)
